@@ -19,6 +19,7 @@ STMTS = {
     'model': 'const _0 = <input v-model={{v1}}/>;', 'spread': 'const _0 = <div {{...s1}} class="c"/>;', 'arrowret': 'const _0 = () => <Foo>{{f1()}}</Foo>;', 'nested': 'const _0 = <Foo><C1>{{v1}}</C1></Foo>;',
     'member-tag': 'const _0 = <v1.Foo>{{v2}}</v1.Foo>;', 'member-tag2': 'const _0 = (u) => <u.Cmp>{{f1()}}</u.Cmp>;',
     'param-tag': 'const _0 = (Foo) => <Foo a={{v1}}/>;', 'local-tag': 'const _0 = function () {{ const Foo = v1; return <Foo>{{v2}}</Foo>; }};', 'destructured-tag': 'const _0 = ({{ Foo, KeepAlive }}) => [<Foo/>, <KeepAlive>{{v1}}</KeepAlive>];',
+    'on': 'const _0 = <p id="x" on={{o1}}/>;', 'nativeOn': 'const _0 = <C1 nativeOn={{o1}}>{{v1}}</C1>;', 'on-arrow': 'const _0 = () => <div on={{{{ click: f1 }}}}/>;',
     'comp-id-opt': 'const _0 = <C1>{{v3}}</C1>;', 'assign-self': 'let _0; _0 = <Foo>{{v1}}</Foo>;', 'text': 'const _0 = <p>  a  b </p>;', 'keepalive': 'const _0 = <KeepAlive>{{v1}}</KeepAlive>;',
 }
 PREFIX = {
@@ -28,7 +29,7 @@ PREFIX = {
     'import-keepalive-alias': "import {{ KeepAlive as Foo }} from 'vue';", 'import-keepalive-alias2': "import {{ KeepAlive as Cmp, Teleport as C1 }} from 'vue';", 'import-other-alias': "import {{ Transition as Foo }} from 'vue';",
     'import-fragment': "import {{ Fragment }} from 'vue';", 'import-fragment-alias': "import {{ Fragment as _Fragment }} from 'vue';", 'import-cv': "import {{ createVNode as _createVNode }} from 'vue';",
     'user-slot': 'const _slot = 1;', 'user-isSlot': 'function _isSlot() {{ return false }}', 'jsx-assign': 'v1 = <Foo>{{v1}}</Foo>;', 'jsx-assign-other': 'v2 = <Foo>{{v2}}</Foo>;',
-    'jsx-dir': 'const p = <div v-show={{v4}}/>;', 'two-temps': 'const p = <Foo>{{f1()}}</Foo>, q = <Foo>{{f1()}}</Foo>;', 'block': '{{ v1 = 1; const p = <Foo>{{f1()}}</Foo>; }}',
+    'jsx-dir': 'const p = <div v-show={{v4}}/>;', 'jsx-on': 'const p = <div on={{s1}}/>;', 'jsx-on-fn': 'function p() {{ return <C1 nativeOn={{s1}}/>; }}', 'jsx-on-arrow': 'const p = () => <div on={{s1}} id="a"/>;', 'two-temps': 'const p = <Foo>{{f1()}}</Foo>, q = <Foo>{{f1()}}</Foo>;', 'block': '{{ v1 = 1; const p = <Foo>{{f1()}}</Foo>; }}',
 }
 PRELUDE10 = 'let C1 = 0, v1 = 0, v2 = 0, v3 = 0, v4 = 0, f1 = () => 0, s1 = {{}}, o1 = {{}};\n'
 
@@ -42,7 +43,10 @@ def make_skeleton(spec):
     suf_c = '' if suf.startswith('import') else suf
     full = imports + PRELUDE10 + pre_c + '\n' + s + '\n' + suf_c + '\n'
     alone = PRELUDE10 + s + '\n'
-    sk = Skeleton('c10#%s|%s|%s' % (spec['stmt'], spec.get('prefix', 'none'), spec.get('suffix', 'none')), full, [], {'optimize': 'sym', 'enable_object_slots': 'sym'}, meta={'family': 'c10'})
+    opts = {'optimize': 'sym', 'enable_object_slots': 'sym'}
+    if ' on=' in full or 'nativeOn=' in full:
+        opts['transform_on'] = 'sym'
+    sk = Skeleton('c10#%s|%s|%s' % (spec['stmt'], spec.get('prefix', 'none'), spec.get('suffix', 'none')), full, [], opts, meta={'family': 'c10'})
     sk.alt_templates = [alone]
     return sk
 
@@ -67,6 +71,8 @@ def renumber(v, mp, user_ctxts=frozenset(), mv=None):
         if v.ty == 'Ident' and v.names and isinstance(v.get('ctxt'), int) and v.get('ctxt') not in user_ctxts and v.get('ctxt') != 0:
             key = ('gen', v.get('ctxt'), denote.pystr(v.get('sym')))
             imp = mv.vue_name(v) if mv is not None else None
+            if imp is None and mv is not None and mv.is_transform_on(v):
+                imp = 'transformOn-helper'      # (an identifier merely spelled like the helper import stays a plain generated name)
             name = ('vue:' + imp) if imp else mp.setdefault(key, 'g%d' % len(mp))
             return Adt('Ident', None, [v.get('span'), -1, SStr.of(name), v.get('optional')], v.names)
         if v.names and 'ctxt' in v.names:
@@ -207,7 +213,7 @@ def jobs(tier):
             out.append({'stmt': s, 'prefix': p})
             if (s, p) in related:
                 continue
-            if tier != 'quick' or p in ('assign-same', 'jsx-temp', 'jsx-assign', 'import-fragment-alias', 'jsx-temp-arrow'):
+            if tier != 'quick' or p in ('assign-same', 'jsx-temp', 'jsx-assign', 'import-fragment-alias', 'jsx-temp-arrow', 'jsx-on'):
                 out.append({'stmt': s, 'suffix': p})
     if tier != 'quick':
         for s in ('comp-id', 'comp-call', 'arrowret', '_Fragment'):
